@@ -101,7 +101,38 @@ for _w in ("dt", "duration", "inclusive"):
     _mk_setter(_w)
 
 
+
+@contract(P, "_constraints_consistent", [(INF, "_constraints_consistent")], min_obligations=2)
+def constraints_consistent(c):
+    """the helper that decides whether a (non-strict) constraint set can hold for a tensor of `ndims` dimensions: up to
+    three constraints on concrete (positive or negative) dims with SYMBOLIC sizes - consistent exactly when no two of them
+    resolve to the same tensor dimension with different sizes (a positive dim and its negative alias with EQUAL sizes
+    are fine)"""
+    ndims = c.choice("ndims", [1, 2, 3])
+    dims_all = list(range(-ndims, ndims))
+    k = c.choice("constraints", [n_ for n_ in (1, 2, 3) if n_ <= len(dims_all)])
+    picks = []
+    for i in range(k):
+        d = c.choice(f"dim{i}", [x for x in dims_all if x not in picks])
+        picks.append(d)
+    sizes = [c.int(f"size{i}") for i in range(k)]
+    c.require(*[s_ >= 0 for s_ in sizes])
+    cons = {d: s_ for d, s_ in zip(picks, sizes)}
+    out = c.outcome(c.function(INF, "_constraints_consistent"), cons, ndims)
+    c.expect_return(out)
+    clash = []
+    for i in range(k):
+        for j in range(i + 1, k):
+            if picks[i] % ndims == picks[j] % ndims:
+                clash.append(sizes[i].z != sizes[j].z)
+    want = z3.Not(z3.Or(clash)) if clash else z3.BoolVal(True)
+    from pyvc.sym import as_bool
+
+    c.ensure("consistent_iff_no_two_constraints_disagree_on_one_dimension", as_bool(out.value) == want)
+    c.canary("canary_always_consistent", as_bool(out.value))
+
 MUTANTS = [
+    dict(file=INF, func="_constraints_consistent", old="        elif hypoth[dim] == size:\n            continue\n", new="", contracts=["_constraints_consistent"], name="seed C13e: a dimension named twice is a conflict even when the sizes agree"),
     dict(file=INF, func="RecordTensor.duration@setter", old='        value = argtest.gte("duration", value, 0, float)\n', new='        value = argtest.gte("duration", value, 0, float)\n        if value == self.__duration:\n            return\n', contracts=["RecordTensor.inclusive@setter", "RecordTensor.duration@setter"], name="seed C13b/C14b: duration setter returns early when unchanged (the inclusive setter relies on it to resize)"),
     dict(file=INF, func="RecordTensor.dt@setter", old="size = max(math.ceil(self.__duration / self.__dt) + self.__inclusive, 1)", new="size = max(math.ceil(self.__duration / self.__dt), 1) + self.__inclusive", contracts=["RecordTensor.dt@setter"], name="seed C13: inclusive outside max()"),
     dict(file=INF, func="RecordTensor.dt@setter", old="size = max(math.ceil(self.__duration / self.__dt) + self.__inclusive, 1)", new="size = max(round(self.__duration / self.__dt) + self.__inclusive, 1)", contracts=["RecordTensor.dt@setter"], name="seed C14: round instead of ceil"),
